@@ -1,7 +1,8 @@
 /-
 C07 — rank / median / mean filters, template_match, find
 (`_convolve.cpp`: `rank_filter<T>`, `mean_filter<T>`, `template_match<T>`, `find2d<T>`;
-`convolve.py`: the wrappers). Values are exact integers (integer dtypes, or integer-valued floats).
+`convolve.py`: the wrappers). Values are exact integers (integer dtypes, or integer-valued floats);
+`tmAtWrap` redoes `template_match` in the wrap-around arithmetic of an integer image dtype.
 -/
 import Mahotas.Model.Border
 import Mahotas.Model.DType
